@@ -262,6 +262,29 @@ func MakeShorthand(eco, kind string, args []string) (Shorthand, bool) {
 		up := append([]string{}, parts[:len(parts)-1]...)
 		up[len(up)-1] = itoa(atoi(up[len(up)-1]) + 1)
 		s.Iv = Interval{Lo: base, LoInc: true, Hi: strings.Join(up, ".")}
+	case "pypi/compat-epoch": // args: epoch + release parts (2-4) + suffix
+		if len(args) < 4 {
+			return s, false
+		}
+		inner, ok := MakeShorthand("pypi", "compat", args[1:])
+		if !ok || atoi(args[0]) < 1 {
+			return s, false
+		}
+		ep := args[0] + "!"
+		s.Text = "~=" + ep + strings.TrimPrefix(inner.Text, "~=")
+		s.Iv = Interval{Lo: ep + inner.Iv.Lo, LoInc: true, Hi: ep + inner.Iv.Hi}
+	case "pypi/prefix-epoch": // args: epoch + parts (1-3)
+		if len(args) < 2 {
+			return s, false
+		}
+		inner, ok := MakeShorthand("pypi", "prefix", args[1:])
+		if !ok || atoi(args[0]) < 1 {
+			return s, false
+		}
+		ep := args[0] + "!"
+		s.Text = "==" + ep + strings.TrimPrefix(inner.Text, "==")
+		s.Iv = Interval{Lo: ep + inner.Iv.Lo, LoInc: true, Hi: ep + inner.Iv.Hi}
+		s.Wildcard = true
 	case "pypi/prefix", "pypi/notprefix": // args: parts (1-3)
 		if len(args) < 1 || len(args) > 3 {
 			return s, false
